@@ -354,15 +354,43 @@ func ruleC19(p *Prog, r *Res) {
 					return false
 				}
 				sig, _ := fn.Type().(*types.Signature)
-				if sig == nil || sig.Results().Len() == 0 || !types.Implements(sig.Results().At(sig.Results().Len()-1).Type(), errorIface()) {
+				if sig == nil || sig.Results().Len() == 0 {
 					return false
 				}
+				lastT := sig.Results().At(sig.Results().Len() - 1).Type()
+				reportsBool := sig.Results().Len() == 1 && types.TypeString(lastT, nil) == "bool"
+				if !reportsBool && !types.Implements(lastT, errorIface()) {
+					return false
+				}
+				does := false
 				for _, c := range callsIn(hf.Body()) {
 					if cf := p.Callee(hf.Pkg, c); cf != nil && want(cf) {
-						return true
+						does = true
 					}
 				}
-				return false
+				if !does || !reportsBool {
+					return does
+				}
+				// a helper that reports success as `true`: no `return true` is reachable from the failure of the step
+				hfl := p.Flow(hf)
+				hinfo := hf.Pkg.TypesInfo
+				isStep := func(n ast.Node) bool {
+					return nodeCalls(p, hf, n, func(cf *types.Func, _ *ast.CallExpr) bool { return want(cf) })
+				}
+				returnsTrue := func(n ast.Node) bool {
+					ret, ok := n.(*ast.ReturnStmt)
+					if !ok || len(ret.Results) != 1 {
+						return false
+					}
+					tv, ok := hinfo.Types[ret.Results[0]]
+					return !(ok && tv.Value != nil && tv.Value.Kind() == constant.Bool && !constant.BoolVal(tv.Value))
+				}
+				for _, sp := range hfl.Find(isStep) {
+					if len(sp.B.Succs) == 2 && failureReaches(hfl, sp, returnsTrue) {
+						return false
+					}
+				}
+				return true
 			}
 			if len(createPts) == 0 {
 				viaHelper := false
@@ -442,7 +470,20 @@ func ruleC19(p *Prog, r *Res) {
 		// removal of the partial file: dominated by the successful create, unreachable from its failure branch
 		for _, bb := range fl.G.Blocks {
 			for _, n := range bb.Nodes {
-				for _, c := range callsIn(n) {
+				removes := callsIn(n)
+				// a deferred clean-up runs at every return that follows its registration: the registration is what
+				// has to be dominated by the successful create
+				if ds, isDefer := n.(*ast.DeferStmt); isDefer {
+					if lit, isLit := ast.Unparen(ds.Call.Fun).(*ast.FuncLit); isLit {
+						ast.Inspect(lit.Body, func(y ast.Node) bool {
+							if c, ok := y.(*ast.CallExpr); ok {
+								removes = append(removes, c)
+							}
+							return true
+						})
+					}
+				}
+				for _, c := range removes {
 					if fn := p.Callee(f.Pkg, c); fn == nil || fn.FullName() != "os.Remove" {
 						continue
 					}
